@@ -78,10 +78,34 @@ def shards(tier, seed):
             for k, x in enumerate(sh):
                 x['cfg'] = cfgs[k % len(cfgs)]
             out += sh
+    out.append({'many_sites': 1100})
     return out
 
 
 vib_traj = concretise.vib_traj
+
+
+def check_many_sites(S):
+    """State level, more than a thousand sites: moves between sites with indices around 255, 999/1000 and the last one."""
+    from gemdat.jumps import Jumps
+
+    visit = [0, 255, 256, -1, 999, 1000, 1001, 999, 1000, -1, S - 1, 1, 1000, S - 1, 0, S - 2]
+    trace = [(0 if a == -1 else 1 + 2 * a, 0 if b == -1 else 1 + 2 * b) for a, b in zip(visit, visit[5:] + visit[:5])]
+    viols = []
+    tr = impl.make_transitions(trace, S)
+    rows = hop.change_log(trace)
+    exp_tm = np.array(hop.count_matrix([(r[1], r[2]) for r in rows], S))
+    tm = np.asarray(tr.matrix())
+    if tm.shape != exp_tm.shape or not np.array_equal(tm, exp_tm):
+        bad = np.argwhere(tm != exp_tm)[:4].tolist() if tm.shape == exp_tm.shape else tm.shape
+        viols.append(('transition-matrix-wrong-many-sites', f'{S} sites; entries {bad}'))
+    D = hop.default_jumps(trace)
+    exp_jm = np.array(hop.count_matrix([(d[1], d[2]) for d in D], S))
+    jm = np.asarray(Jumps(tr).matrix())
+    if jm.shape != exp_jm.shape or not np.array_equal(jm, exp_jm):
+        bad = np.argwhere(jm != exp_jm)[:4].tolist() if jm.shape == exp_jm.shape else jm.shape
+        viols.append(('jump-matrix-wrong-many-sites', f'{S} sites; entries {bad}'))
+    return viols
 
 
 def close(a, b, rtol=1e-9):
@@ -273,6 +297,14 @@ def check(trace, S, cfg):
 
 def run_shard(shard) -> Result:
     res = Result()
+    if 'many_sites' in shard:
+        impl.clear_weak_caches()
+        for kind, detail in check_many_sites(shard['many_sites']):
+            res.violation(kind, {'many_sites': shard['many_sites']}, detail)
+        res.evals += 1
+        res.outcome(('many-sites', shard['many_sites']))
+        res.stats['many_sites_cases'] += 1
+        return res
     S, cfg = shard['S'], shard['cfg']
     for n, trace in enumerate(traces.iter_shard(shard)):
         if n % 256 == 0:
@@ -289,5 +321,7 @@ def run_shard(shard) -> Result:
 
 
 def replay(case):
+    if 'many_sites' in case:
+        return [{'kind': k, 'detail': d} for k, d in check_many_sites(case['many_sites'])]
     viols, _ = check(case['trace'], case['n_sites'], case['cfg'])
     return [{'kind': k, 'detail': d} for k, d in viols]
